@@ -125,6 +125,24 @@ func (m c16) Directed(c *Ctx) {
 	m.sweep(c, []string{"a", "b", "aa", "ab", "ba", "bb"})
 	m.sweep(c, []string{"a", "a_a", "a_", "_a", "a-a", "-"})
 	m.sweep(c, []string{"a", "a a", "a ", " a", " ", "\""})
+	// type names may be empty in a Rel value (a relationship written before its owner is known)
+	c.Name = "empty-type-names"
+	for _, ft := range []string{"", "a", "b"} {
+		for _, tt := range []string{"", "a", "b"} {
+			for _, fn := range []string{"a", "b", "parent"} {
+				for _, tn := range []string{"", "a", "b", "children"} {
+					for card := 0; card < 4; card++ {
+						r := jsonapi.Rel{FromType: ft, FromName: fn, ToType: tt, ToName: tn, ToOne: card&1 == 1, FromOne: card&2 == 2}
+						if ft == tt && fn == tn && r.ToOne != r.FromOne {
+							continue
+						}
+						m.checkRel(c, r)
+						c.Count("rels_with_empty_type_name")
+					}
+				}
+			}
+		}
+	}
 	c.Name = "witness-rels-space-collision"
 	m.schemaCase(c, &SchemaSpec{Types: []TypeSpec{
 		{Name: "user", Rels: []RelSpec{{Name: "best friend", ToType: "profile"}, {Name: "best", ToType: "friend profile"}}},
